@@ -508,6 +508,11 @@ func replayKvWait(b Behaviour, opt *Options) *Failure {
 		var f *Failure
 		for i := 1; i < len(b) && f == nil && !r.stalled; i++ {
 			f = r.step(i, b[i])
+			if f != nil {
+				// a disagreement is judged only if, even now, no record is about to expire in real time (the clock was
+				// checked before the call; the host may have stalled between that check and the call itself)
+				r.checkClock()
+			}
 		}
 		if f == nil && !r.stalled {
 			f = r.epilogue(b)
